@@ -17,7 +17,9 @@ PROP = dict(
          "allowance families / dense random cut sets with timeouts; (d) corrupted streams (magic bit, oversize length, checksum "
          "field, payload bit, length of a payload-less command, length too long) and foreign-magic / random bytes; (e) c11.reads: "
          "AtomicReader::read alone with arbitrary request sizes (growing, shrinking, zero) under random schedules, per-call result "
-         "F<bytes>/T/D = model. Compared for c11.recv: "
+         "F<bytes>/T/D = model. (f) c12.session (30 per quick run): the REAL receive loop of connect_internal over a loopback socket, "
+         "conforming sessions whose several-hundred-byte payloads arrive frame by frame in 7-250-byte segments paced 1-2 ms apart, "
+         "compared as in C12 (observer log, what the node received, final state). Compared for c11.recv: "
          "final error class, number of messages, per message command and 8 bytes of sha256d(payload): implementation = model "
          "(same schedule) = reference (contiguous parse; never sees the schedule). Every case runs the reader; distinct by request.",
     nontrivial=lambda req, impl: not impl.startswith("bad-request") and not impl.startswith("unknown-op"),
